@@ -1,5 +1,6 @@
 """C16 - richness and overlap estimators follow their closed forms for every count vector."""
 import itertools
+import pandas as pd
 import math
 from fractions import Fraction
 from mc.core import Space, HarnessError, raised
@@ -12,7 +13,7 @@ RULE = ("every frequency-of-frequency vector of the bound (as list and ndarray) 
         "missing values; non-trivial = f2>0 (richness) / non-empty intersection (overlap)")
 ASSUMPTIONS = ["float results compared with the exact rational closed form to 1e-12 relative",
                "jaccard_index: missing values only inside Series (documented behaviour); ratio forms only where both element sets are non-empty after removal"]
-REQUIRED_CLASSES = {"all": ["f2-zero", "f2-positive", "length-1-vector", "set-container", "series-with-missing", "duplicates", "large-counts"]}
+REQUIRED_CLASSES = {"all": ["f2-zero", "f2-positive", "length-1-vector", "set-container", "series-with-missing", "duplicates", "large-counts", "categorical-with-unused-categories", "tuple-elements"]}
 MIN_OUTCOMES = 8
 NAN = float("nan")
 ELEMS = ("a", "b", "c", None, NAN)
@@ -33,6 +34,11 @@ def spaces(tier):
                 yield ("ff", (f1, f2, 40, 3))
                 yield ("ff", (f1, f2))
 
+    def gen_tuples():
+        for n in range(0, 3):
+            for a in itertools.product(range(6), repeat=n):
+                yield ("tuples", a)
+
     def gen_ov():
         idx = range(len(ELEMS))
         lists = [t for n in range(0, 4) for t in itertools.product(idx, repeat=n)]
@@ -42,6 +48,7 @@ def spaces(tier):
     return [
         Space("frequency-of-frequency-vectors", gen_ff, "all vectors of length 1..4 with entries 0..4 (quick) / length 1..5, entries 0..5 (thorough), as list and ndarray, m in {2,5}"),
         Space("magnitude-boundary-family", gen_mag, "f1 in {2^8-1, 2^8, 55108, 55109, 2^16-1, 2^16, 2^21+1, 2^31-1} x f2 in {0, 1, 3, 1000, 2^16, 2^21+1}, as list and as int64 ndarray (int64 powers of such counts overflow)"),
+        Space("tuple-valued-elements", gen_tuples, "collections of 0..2 elements from {(a,b), (None,b), (a,), (a,b,c), None, (NaN,x)} against each other in list/set/tuple/Series containers (overlap, overlap_coefficient)"),
         Space("collection-pairs", gen_ov, "A, B in all lists of length 0..3 over {a,b,c,None,NaN} (156 x 156 pairs; one case = one A against every B) x {list, tuple, set, Series}; also with numeric elements"),
     ]
 
@@ -114,6 +121,31 @@ def check_case(case, acc):
         for n in range(0, 4):
             for b in itertools.product(idx, repeat=n):
                 _check_overlap(acc, a, b)
+    elif kind == "tuples":
+        # hashable tuple elements (e.g. paired-chain clonotypes): a tuple with a None/NaN component or of another length is an
+        # ordinary element, only stand-alone None/NaN are missing
+        pool = (("a", "b"), (None, "b"), ("a",), ("a", "b", "c"), None, (NAN, "x"))
+        A = [pool[i] for i in case[1]]
+        acc.cls("tuple-elements")
+        for nB in range(0, 3):
+            for bi in itertools.product(range(len(pool)), repeat=nB):
+                B = [pool[i] for i in bi]
+                sa = {x for x in A if x is not None}
+                sb = {x for x in B if x is not None}
+                for ca, cb in (("list", "list"), ("list", "series"), ("set", "list"), ("tuple", "tuple")):
+                    boxa = {"list": list, "set": set, "tuple": tuple, "series": lambda v: pd.Series(v, dtype=object)}[ca](A)
+                    boxb = {"list": list, "set": set, "tuple": tuple, "series": lambda v: pd.Series(v, dtype=object)}[cb](B)
+                    r = acc.call(pyrepseq.overlap, boxa, boxb)
+                    if raised(r) or r != len(sa & sb):
+                        acc.fail("overlap/tuple-elements/%s" % ("raised-" + r.type if raised(r) else "value"), ("tuples", case[1]), len(sa & sb), r, note="B=%r containers=%s,%s" % (B, ca, cb))
+                        return
+                    if sa and sb:
+                        r = acc.call(pyrepseq.overlap_coefficient, boxa, boxb)
+                        e = len(sa & sb) / min(len(sa), len(sb))
+                        if raised(r) or not feq(r, e):
+                            acc.fail("overlap_coefficient/tuple-elements/%s" % ("raised-" + r.type if raised(r) else "value"), ("tuples", case[1]), e, r, note="B=%r containers=%s,%s" % (B, ca, cb))
+                            return
+                    acc.ok(("tup", len(sa & sb)), nontrivial=bool(sa & sb))
     elif kind == "ov1":
         _check_overlap(acc, case[1], case[2], only=(case[3], case[4], case[5]))
     else:
@@ -133,6 +165,9 @@ def _box(idxs, cont, numeric):
         return set(vals)
     if cont == "series":
         return pd.Series(vals, dtype=object) if not vals else pd.Series(vals)
+    if cont == "categorical":
+        # a categorical column after filtering: categories that no longer occur are still listed
+        return pd.Series(pd.Categorical(vals, categories=sorted({v for v in vals if isinstance(v, (str, int))} | ({"zz", "a"} if not numeric else {77, 1}))))
     raise HarnessError(cont)
 
 
@@ -146,7 +181,7 @@ def _check_overlap(acc, a, b, only=None):
         acc.cls("duplicates")
     inter, union = len(sa & sb), len(sa | sb)
     conts = ("list", "tuple", "set", "series")
-    for ca in conts:
+    for ca in conts + ("categorical",):
         for cb in (conts if ca in ("list", "series") else ("list", ca)):
             for numeric in ((False, True) if (ca, cb) in (("list", "list"), ("series", "series"), ("set", "set")) else (False,)):
                 if only is not None and (ca, cb, numeric) != only[:3]:
@@ -155,9 +190,11 @@ def _check_overlap(acc, a, b, only=None):
                     acc.cls("set-container")
                 if (ca == "series" and miss_a) or (cb == "series" and miss_b):
                     acc.cls("series-with-missing")
+                if "categorical" in (ca, cb):
+                    acc.cls("categorical-with-unused-categories")
                 for fn in ("overlap", "overlap_coefficient", "jaccard_index"):
                     if fn == "jaccard_index":
-                        if (miss_a and ca != "series") or (miss_b and cb != "series") or union == 0:
+                        if (miss_a and ca not in ("series", "categorical")) or (miss_b and cb not in ("series", "categorical")) or union == 0:
                             continue
                         exp = Fraction(inter, union)
                     elif fn == "overlap":
